@@ -11,20 +11,42 @@ use crate::apps::App;
 use crate::model::Analysis;
 use crate::oracle::{aux_stream, Aux, Tally, Verdict, Violation};
 
-/// The reply to the *first* request, comparable across deliveries: HTTP with the Date masked;
-/// ONC-RPC reduced to the first record of the payload (a segment that completes several
-/// pipelined calls may carry several replies, one record each).
-fn norm(app: App, r: &[u8]) -> Vec<u8> {
+/// The reply to the *first* request, comparable across deliveries: HTTP reduced to the first
+/// response of the payload, with the Date masked;
+/// ONC-RPC reduced to the record that answers the first call (a segment that completes several
+/// pipelined calls may carry several replies, one record each, in any order).
+fn norm(app: App, r: &[u8], stream: &[u8]) -> Vec<u8> {
     if app == App::Http {
-        http::mask_date(r)
-    } else {
-        if r.len() >= 4 {
-            let l = (u32::from_be_bytes([r[0] & 0x7f, r[1], r[2], r[3]]) as usize).saturating_add(4);
-            if l <= r.len() {
-                return r[..l].to_vec();
-            }
+        // the first response of the payload (a segment that completes several pipelined requests
+        // may carry several responses back to back)
+        match http::first_response_len(r) {
+            Some(l) => http::mask_date(&r[..l]),
+            None => http::mask_date(r),
         }
-        r.to_vec()
+    } else {
+        // the record answering the first call: the one carrying its XID (the order of the
+        // records of one payload is free), else the first record
+        let xid = if stream.len() >= 8 { Some(&stream[4..8]) } else { None };
+        let mut at = 0;
+        let mut first: Option<&[u8]> = None;
+        while at + 4 <= r.len() {
+            let l = (u32::from_be_bytes([r[at] & 0x7f, r[at + 1], r[at + 2], r[at + 3]]) as usize).saturating_add(4);
+            if l > r.len() - at {
+                break;
+            }
+            let rec = &r[at..at + l];
+            if first.is_none() {
+                first = Some(rec);
+            }
+            if rec.len() >= 8 && Some(&rec[4..8]) == xid {
+                return rec.to_vec();
+            }
+            at += l;
+        }
+        match first {
+            Some(rec) => rec.to_vec(),
+            None => r.to_vec(),
+        }
     }
 }
 
@@ -119,7 +141,7 @@ pub fn check(a: &Analysis, aux: &mut Aux, t: &mut Tally) -> Vec<Violation> {
             );
             continue;
         }
-        if a_answered && norm(app, &a_app) != norm(app, &r_b) {
+        if a_answered && norm(app, &a_app, stream) != norm(app, &r_b, stream) {
             bad("baselines-disagree", format!("baselines-content:{}", proto), first.idx, format!("reply content differs between the one-segment and the byte-wise delivery of the same {} stream", proto));
             continue;
         }
@@ -169,7 +191,7 @@ pub fn check(a: &Analysis, aux: &mut Aux, t: &mut Tally) -> Vec<Violation> {
                     ),
                     Some(k) => {
                         let own = segs_in[k].1.as_ref().unwrap();
-                        if norm(app, own) != norm(app, &a_app) {
+                        if norm(app, own, stream) != norm(app, &a_app, stream) {
                             bad("content", format!("content-depends-on-segmentation:{}", proto), a.steps[st.segs[k].si].idx, "reply content differs from the one-segment delivery of the same stream".into());
                         }
                     }
